@@ -638,6 +638,17 @@ def run(ctx):
     ctx.lean_props(THEOREMS, extra_modules=("MjProof.Props.C31Gen",))
     T["lean_props"] = round(time.time() - t0, 1)
     ctx.extra["phase_seconds"] = T
+    if not tr_ok:
+        # the theorems about the generated layout were checked against the layout of the last accepted translation,
+        # not against the current source: they do not count
+        ctx.oblige("theorems of MjProof.C31Gen are about the layout of the current source", "translator", False,
+                   "translator refused: MjProof/Gen/MjbLayout.lean is stale")
+    ctx.assumptions += [
+        "C31: allocation succeeds (the harness refuses requests above 256 MB and the comparison then only checks the requested size)",
+        "C31: buffer_sz is a non-negative int: images longer than INT_MAX are outside the model",
+        "C31: the special logic of mj_validateReferences is hand-modelled (tied by a token-exact template and by the differential run)",
+        "C31: plugin sensors are outside the model (mjp_getPluginAtSlot is reported as a hazard)",
+    ]
     if info is None:
         ctx.oblige("correspondence MJB vs Lean model", "correspondence", False, "no generated layout (translator refused)")
     drv = ctx.driver("drv_c31") if info else None
